@@ -10,6 +10,7 @@ Tie to the code (harness/wire.cpp, model lean/YgmVerif/Model/Wire.lean through `
      byte-identical, and every message must travel origin -> ... -> destination.
  (c) oracle: every handler receives the arguments / functor state that were passed (regenerated from the uid
      inside the handler, and compared by hash with the sender's log), exactly once."""
+import hashlib
 import os
 import random
 import shutil
@@ -50,6 +51,72 @@ def fnv(s):
         h ^= c
         h = (h * 1099511628211) & 0xFFFFFFFFFFFFFFFF
     return h
+
+
+# ----------------------------------------------------------------------------------- builds
+
+def build_variant(tag, flags):
+    """harness/wire.cpp compiled with other flags than C.build_harness offers (-O0 probe build; sanitizers without the
+    `null` check, which YGM's lambda_map trips by design for every captureless lambda).  Same caching rule as
+    C.build_harness, separate file-name prefix so that the variants do not evict each other."""
+    src = os.path.join(C.HARNESS, "wire.cpp")
+    fl = ["-std=c++17", "-g0", "-w", "-I" + C.SIMMPI, "-I" + os.path.join(C.REPO, "include"), "-I" + C.HARNESS, "-D" + C.HOOK_DEFINE] + list(flags)
+    key = hashlib.sha256((C.repo_hash() + C._tree_hash([src, os.path.join(C.HARNESS, "hcommon.hpp")])
+                          + C._tree_hash([os.path.join(C.SIMMPI, "simmpi.cpp"), os.path.join(C.SIMMPI, "mpi.h")]) + " ".join(fl)).encode()).hexdigest()[:20]
+    d = os.path.join(C.BUILD, "harness")
+    os.makedirs(d, exist_ok=True)
+    out = os.path.join(d, f"{tag}-{key}")
+    with C.Lock("harness-" + tag):
+        if not os.path.exists(out):
+            for f in os.listdir(d):
+                if f.startswith(tag + "-") and not f.endswith(".tmp"):
+                    try:
+                        os.unlink(os.path.join(d, f))
+                    except OSError:
+                        pass
+            r = C.sh(["g++"] + fl + [src, os.path.join(C.SIMMPI, "simmpi.cpp"), "-o", out + ".tmp", "-lpthread"])
+            if r.returncode != 0:
+                return None, r.stderr
+            os.rename(out + ".tmp", out)
+    return out, ""
+
+
+SAN_FLAGS = ["-O1", "-g", "-fsanitize=address,undefined", "-fno-sanitize=null", "-fno-sanitize-recover=all", "-fno-omit-frame-pointer"]
+
+
+# ----------------------------------------------------------------------------------- probe: function objects with state
+
+def part_probe(res, binary, seed):
+    """a 16-byte function object through async / async_bcast, default build (-O1) and a plain -O0 build.
+    Returns True when stateful function objects survive async_bcast in the default build."""
+    o0, err = build_variant("wireO0", ["-O0", "-DWIRE_PROBE_ONLY"])
+    if o0 is None:
+        res.corr_failures.append({"relation": "probe harness builds against /repo", "what": err[-500:], "case": None})
+    jobs = [(opt, b, api, lay, routing) for (opt, b) in (("-O1", binary), ("-O0", o0)) if b
+            for api in ("async", "async_bcast") for (lay, routing) in (((1, 2), "NONE"), ((2, 2), "NLNR"))]
+
+    def do(j):
+        opt, b, api, (n, p), routing = j
+        return j, C.run_sim(b, ["probe", "b" if api == "async_bcast" else "a", 1000 + seed], nodes=n, ppn=p, env={"YGM_COMM_ROUTING": routing},
+                            sim_seed=seed, want_log=False, timeout=60)
+
+    ok_bcast = True
+    for (opt, b, api, (n, p), routing), sr in C.pmap(do, jobs):
+        res.evaluations += 1
+        res.distinct.add(("probe", opt, api, n * p))
+        res.count("probe:stateful-functor")
+        got = sorted((r, l) for r, ls in sr.outs.items() for l in ls if l.startswith("precv"))
+        want_ranks = list(range(n * p)) if api == "async_bcast" else [n * p - 1]
+        good = sr.verdict == "ok" and [r for r, _ in got] == want_ranks and all(l.split()[2:] == ["1", "1"] for _, l in got)
+        if not good:
+            if opt == "-O1" and api == "async_bcast":
+                ok_bcast = False
+            sig = f"stateful-functor-crash {api} {opt}" if sr.verdict.startswith("rank-failed") else f"stateful-functor-state-differs {api} {opt}"
+            res.oracle_failures.append({
+                "what": f"{api} with a 16-byte trivially copyable function object, build {opt}, {n}x{p} {routing}: {sr.verdict}; handler output {got[:4]} "
+                        "(remote_dispatch_lambda in pack_lambda_generic passes `*pl` with pl == nullptr to a by-value `Lambda l` parameter)",
+                "signature": sig, "case": {"part": "probe", "api": api, "opt": opt, "nodes": n, "ppn": p, "routing": routing, "seed": seed, "verdict": sr.verdict}})
+    return ok_bcast
 
 
 # ----------------------------------------------------------------------------------- (a) archive
@@ -178,10 +245,13 @@ def traffic_configs(tier, seed):
                 cfgs.append({"nodes": n, "ppn": p, "routing": routing, "cap": cap})
     if tier == "quick":
         cfgs += [{"nodes": 3, "ppn": 2, "routing": "NLNR", "cap": 1}, {"nodes": 3, "ppn": 2, "routing": "NR", "cap": 0},
-                 {"nodes": 1, "ppn": 3, "routing": "NONE", "cap": None}, {"nodes": 1, "ppn": 1, "routing": "NR", "cap": 1}]
+                 {"nodes": 1, "ppn": 3, "routing": "NONE", "cap": None}, {"nodes": 1, "ppn": 1, "routing": "NR", "cap": 1},
+                 # messages beyond 64 KB (all four bytes of message_size matter) and beyond the capacity
+                 {"nodes": 2, "ppn": 2, "routing": "NR", "cap": 64, "big": 9000, "nmsg": 16},
+                 {"nodes": 2, "ppn": 3, "routing": "NLNR", "cap": None, "big": 9000, "nmsg": 12}]
     else:
         cfgs += [{"nodes": 1, "ppn": 1, "routing": r, "cap": c} for r in ("NONE", "NLNR") for c in (0, None)]
-        cfgs += [{"nodes": 2, "ppn": 3, "routing": r, "cap": 64, "big": 40000} for r in ("NONE", "NR", "NLNR")]
+        cfgs += [{"nodes": 2, "ppn": 3, "routing": r, "cap": 64, "big": 40000, "nmsg": 40} for r in ("NONE", "NR", "NLNR")]
     out = []
     reps = 1 if tier == "quick" else 3
     for i, c in enumerate(cfgs):
@@ -191,7 +261,7 @@ def traffic_configs(tier, seed):
             d["policy"] = pol[(i + rep + seed) % len(pol)]
             d["seed"] = seed * 1000 + i * 10 + rep
             d.setdefault("big", 300 if tier == "quick" else 2000)
-            d["nmsg"] = 36 if tier == "quick" else 120
+            d.setdefault("nmsg", 36 if tier == "quick" else 120)
             d["eager"] = [50, 0, 100][(i + rep) % 3]
             out.append(d)
     return out
@@ -201,7 +271,7 @@ def run_traffic(binary, cfg, log_bytes=-1):
     env = {"YGM_COMM_ROUTING": cfg["routing"], "YGM_COMM_IRECV_SIZE_KB": 65536}
     if cfg["cap"] is not None:
         env["YGM_COMM_BUFFER_SIZE_KB"] = cfg["cap"]
-    return C.run_sim(binary, ["traffic", cfg["seed"], cfg["big"], cfg["nmsg"]], nodes=cfg["nodes"], ppn=cfg["ppn"], env=env,
+    return C.run_sim(binary, ["traffic", cfg["seed"], cfg["big"], cfg["nmsg"], cfg.get("sb", 1)], nodes=cfg["nodes"], ppn=cfg["ppn"], env=env,
                      sim_seed=cfg["sim_seed"], policy=cfg["policy"], eager_pct=cfg["eager"], log_bytes=log_bytes, timeout=600,
                      max_steps=20000000)
 
@@ -342,6 +412,8 @@ def buffers_traffic(res, sr, cfg, sent):
             res.corr_failures.append({"relation": "Wire.asyncAppend = encodeMsg on the logged message", "what": o[:80], "case": dict(case0, uid=uid)})
             continue
         expected[w[0]] = uid
+        nb = (len(w[0]) - 1) // 2
+        res.count("msg-bytes:" + ("<64" if nb < 64 else "<1K" if nb < 1024 else "<64K" if nb < 65536 else ">=64K"))
     apps = {}
     nfail = 0
 
@@ -444,9 +516,14 @@ def run(tier, seed, model_ok=True):
         return res
     if not model_ok:
         res.corr_failures.append({"relation": "model driver available", "what": "Lean library does not build", "case": None})
+    sb = part_probe(res, binary, seed)
+    if not sb:
+        res.notes.append("async_bcast crashes with stateful function objects (see oracle failure); the generated traffic therefore broadcasts "
+                         "only through stateless handler types, everything else is unchanged")
     part_archive(res, binary, tier, seed, model_ok)
     cfgs = traffic_configs(tier, seed)
-    first = {}
+    for c in cfgs:
+        c["sb"] = 1 if sb else 0
 
     def do(cfg):
         sub = C.Result()
@@ -472,13 +549,13 @@ def run(tier, seed, model_ok=True):
         if info and info["run"]["routing"] == "NLNR" and info["run"]["nodes"] == 2 and info["run"]["ppn"] == 3:
             res.sample(info)
     if tier == "thorough":
-        sbin, serr = C.build_harness("wire", sanitize=True)
+        sbin, serr = build_variant("wiresan", SAN_FLAGS)
         if sbin is None:
             res.corr_failures.append({"relation": "sanitized harness builds", "what": serr[-500:], "case": None})
         else:
             sub = C.Result()
             part_archive(sub, sbin, "quick", seed + 1, False)
-            scfgs = [c for c in traffic_configs("quick", seed + 1)][:12]
+            scfgs = [dict(c, sb=1 if sb else 0, sanitize=True) for c in traffic_configs("quick", seed + 1)][:12]
             for s2, _ in C.pmap(lambda c: (check_only_oracle(sbin, c), None), scfgs, workers=6):
                 sub.oracle_failures += s2.oracle_failures
                 sub.evaluations += s2.evaluations
@@ -512,13 +589,17 @@ def replay(data):
             if isinstance(b.get("case"), dict) and b["case"].get("part") == "archive":
                 case = b["case"]
                 break
-    binary, err = C.build_harness("wire", sanitize=bool(case.get("sanitize")))
+    san = bool(case.get("sanitize") or (case.get("run") or {}).get("sanitize"))
+    binary, err = build_variant("wiresan", SAN_FLAGS) if san else C.build_harness("wire")
     if binary is None or not case:
         print("replay: nothing executable recorded:", str(data.get("no_longer_checks"))[:500])
         return False
     res = C.Result()
     if case.get("part") == "archive":
         part_archive(res, binary, case.get("tier", "quick"), case.get("seed", 1), True, only={case["k"]} if "k" in case else None)
+    elif case.get("part") == "probe":
+        part_probe(res, binary, case.get("seed", 1))
+        res.oracle_failures = [f for f in res.oracle_failures if f["case"]["api"] == case["api"] and f["case"]["opt"] == case["opt"]]
     else:
         check_run(res, binary, case["run"], True)
     for f in res.oracle_failures[:5]:
